@@ -56,6 +56,8 @@ type Contract struct {
 	Effects    []string // free-form effect tags of a trusted function, e.g. "disk-write"
 	NilRecv    bool     // the method tolerates a nil pointer receiver
 	Ats        []AtRule // assertions attached to call sites / effect classes
+	AssumedEns []Clause // postconditions assumed at call sites but not verified on the body (typing facts about dependencies' output)
+	Invariants []Clause // closure invariants: hold before and after every run of a function literal
 }
 
 var reFuncHdr = regexp.MustCompile(`^(func|iface|closure)\s+(\([^)]*\)\s*)?([^\s(]+)\s*(\([^)]*\))?\s*(\([^)]*\))?\s*$`)
@@ -239,7 +241,7 @@ func (cs *ContractSet) parseContractLines(file, pkgPath string, lines []string, 
 				cur.Key = name
 			}
 			cs.byHeader = append(cs.byHeader, cur)
-		case "requires", "ensures", "invariant", "unfold", "unfold-post":
+		case "requires", "ensures", "ensures-assumed", "invariant", "unfold", "unfold-post":
 			if cur == nil {
 				return errf(i, "%s outside func", word)
 			}
@@ -252,6 +254,8 @@ func (cs *ContractSet) parseContractLines(file, pkgPath string, lines []string, 
 				cur.Requires = append(cur.Requires, c)
 			case "ensures":
 				cur.Ensures = append(cur.Ensures, c)
+			case "ensures-assumed":
+				cur.AssumedEns = append(cur.AssumedEns, c)
 			case "unfold-post":
 				cur.UnfoldPost = append(cur.UnfoldPost, c)
 			case "unfold":
@@ -262,9 +266,11 @@ func (cs *ContractSet) parseContractLines(file, pkgPath string, lines []string, 
 				}
 			case "invariant":
 				if curLoop == nil {
-					return errf(i, "invariant outside loop")
+					// function-level: an invariant of a function literal over its captured variables
+					cur.Invariants = append(cur.Invariants, c)
+				} else {
+					curLoop.Invariants = append(curLoop.Invariants, c)
 				}
-				curLoop.Invariants = append(curLoop.Invariants, c)
 			}
 		case "assigns":
 			if cur == nil {
